@@ -520,3 +520,199 @@ def instantiate(lean_root, name, body, src, subdir="Generated", extra_imports=()
     if write_if_changed(os.path.join(lean_root, "BeyondVerif", subdir, name + "R.lean"), r):
         changed.append(f"{subdir}/{name}R.lean")
     return changed
+
+
+# ======================================================================================
+# Whole-function translation (added for C01; the functions above are unchanged).
+#
+# Additional Python accepted here: a parameter that is a fixed-length vector (`coord`, bound to
+# scalar Lean arguments), tuple-unpacking of a vector, slices `coord[:3]` / constant subscripts `h[2]`,
+# `np.cross`, `np.dot`, `np.linalg.norm` on 3-vectors, chained comparisons, `np.sign`, `if/else`
+# blocks with branch-local names (only names assigned in both branches or defined before the `if`
+# leave it), a final `return np.array([...])` / `return expr`.
+# ======================================================================================
+
+class TrFn(Tr):
+    def __init__(self, consts=None, funcs=None):
+        super().__init__(consts=consts, funcs=funcs)
+        self.vecs = {}        # python name -> list of Lean component texts
+        self.defined = set()  # python scalar names bound so far
+
+    # ---- vectors
+    def vec_of(self, node):
+        if isinstance(node, ast.Name) and node.id in self.vecs:
+            return list(self.vecs[node.id])
+        if isinstance(node, ast.Subscript) and isinstance(node.slice, ast.Slice):
+            base = self.vec_of(node.value)
+            if base is None:
+                return None
+            def cv(x):
+                if x is None:
+                    return None
+                if isinstance(x, ast.Constant) and isinstance(x.value, int):
+                    return x.value
+                raise Untranslatable("non-constant slice")
+            if node.slice.step is not None:
+                raise Untranslatable("slice step")
+            return base[cv(node.slice.lower):cv(node.slice.upper)]
+        if isinstance(node, ast.Call):
+            d = self.dotted(node.func)
+            if d in ("np.cross", "numpy.cross"):
+                a, b = self.vec_of(node.args[0]), self.vec_of(node.args[1])
+                if a is None or b is None or len(a) != 3 or len(b) != 3:
+                    raise Untranslatable("cross of non-3-vectors")
+                return [f"(({a[1]} * {b[2]}) - ({a[2]} * {b[1]}))", f"(({a[2]} * {b[0]}) - ({a[0]} * {b[2]}))", f"(({a[0]} * {b[1]}) - ({a[1]} * {b[0]}))"]
+            if d in ("np.array", "numpy.array", "np.asarray") and isinstance(node.args[0], (ast.List, ast.Tuple)):
+                return [self.expr(x) for x in node.args[0].elts]
+        if isinstance(node, (ast.List, ast.Tuple)):
+            return [self.expr(x) for x in node.elts]
+        return None
+
+    def expr(self, e):
+        if isinstance(e, ast.Subscript):
+            base = self.vec_of(e.value)
+            if base is not None and isinstance(e.slice, ast.Constant) and isinstance(e.slice.value, int):
+                return base[e.slice.value]
+            raise Untranslatable("subscript")
+        if isinstance(e, ast.Call):
+            d = self.dotted(e.func)
+            if d in ("np.linalg.norm", "numpy.linalg.norm"):
+                v = self.vec_of(e.args[0])
+                if v is None or len(e.args) != 1 or e.keywords:
+                    raise Untranslatable("norm")
+                return "(sqrt (" + " + ".join(f"(powi {c} 2)" for c in v) + "))"
+            if d in ("np.dot", "numpy.dot"):
+                a, b = self.vec_of(e.args[0]), self.vec_of(e.args[1])
+                if a is None or b is None or len(a) != len(b):
+                    raise Untranslatable("dot")
+                return "(" + " + ".join(f"({x} * {y})" for x, y in zip(a, b)) + ")"
+            if d in ("np.sign", "numpy.sign", "sign"):
+                x = self.expr(e.args[0])
+                return f"(if {x} > (0 : R) then (1 : R) else if {x} < (0 : R) then (-(1 : R)) else (0 : R))"
+        if isinstance(e, ast.Compare) and len(e.ops) > 1:
+            parts = []
+            left = e.left
+            for op, right in zip(e.ops, e.comparators):
+                parts.append(self.expr(ast.Compare(left=left, ops=[op], comparators=[right])))
+                left = right
+            return "(" + " ∧ ".join(parts) + ")"
+        if isinstance(e, ast.Name) and e.id in self.vecs:
+            raise Untranslatable(f"vector {e.id} used as a scalar")
+        return super().expr(e)
+
+    # ---- statements
+    def let_scalar(self, name, text):
+        self.defined.add(name)
+        self.vecs.pop(name, None)
+        return f"let {lname(name)} : R := {text}"
+
+    def stmts(self, body, result_of_return=True):
+        """nested lets for a statement list ending in `return`; returns the Lean text"""
+        lines = []
+        for idx, s in enumerate(body):
+            if isinstance(s, ast.Expr) and isinstance(s.value, ast.Constant):
+                continue
+            if isinstance(s, ast.Return):
+                v = self.vec_of(s.value)
+                lines.append("[" + ", ".join(v) + "]" if v is not None else self.expr(s.value))
+                return "\n".join(lines)
+            if isinstance(s, ast.Assign) and len(s.targets) == 1:
+                t = s.targets[0]
+                if isinstance(t, ast.Name):
+                    v = self.vec_of(s.value)
+                    if v is not None:
+                        comps = []
+                        for k, c in enumerate(v):
+                            cn = f"{lname(t.id)}_{k}"
+                            lines.append(f"let {cn} : R := {c}")
+                            comps.append(cn)
+                        self.vecs[t.id] = comps
+                        self.defined.discard(t.id)
+                    else:
+                        lines.append(self.let_scalar(t.id, self.expr(s.value)))
+                    continue
+                if isinstance(t, (ast.Tuple, ast.List)):
+                    names = [x.id for x in t.elts if isinstance(x, ast.Name)]
+                    if len(names) != len(t.elts):
+                        raise Untranslatable("nested tuple target")
+                    if isinstance(s.value, (ast.Tuple, ast.List)) and len(s.value.elts) == len(names):
+                        new = []
+                        for n, vv in zip(names, s.value.elts):
+                            v = self.vec_of(vv)
+                            new.append((n, v, None if v is not None else self.expr(vv)))
+                        for n, v, tx in new:
+                            if v is not None:
+                                self.vecs[n] = v
+                                self.defined.discard(n)
+                            else:
+                                lines.append(self.let_scalar(n, tx))
+                        continue
+                    v = self.vec_of(s.value)
+                    if v is not None and len(v) == len(names):
+                        for n, c in zip(names, v):
+                            lines.append(self.let_scalar(n, c))
+                        continue
+                    raise Untranslatable("tuple assignment")
+            if isinstance(s, ast.If):
+                before = set(self.defined)
+                ba, bo = set(self.assigned(s.body)), set(self.assigned(s.orelse))
+                names = sorted((ba & bo) | ((ba | bo) & before))
+                if not names:
+                    raise Untranslatable("if without common assignments")
+                tup = "(" + ", ".join(lname(n) for n in names) + ")" if len(names) > 1 else lname(names[0])
+                test = self.expr(s.test)
+                sv, sd = dict(self.vecs), set(self.defined)
+                a = self._branch(s.body, tup)
+                self.vecs, self.defined = dict(sv), set(sd)
+                b = self._branch(s.orelse, tup) if s.orelse else tup
+                self.vecs, self.defined = sv, sd | set(names)
+                ty = " × ".join(["R"] * len(names))
+                if len(names) == 1:
+                    lines.append(f"let {tup} : {ty} := (if {test} then\n{indent(a)}\nelse\n{indent(b)})")
+                else:
+                    # projections instead of a pattern-let, so that `if_pos`/`if_neg` rewrite under the binder
+                    self.ite_count = getattr(self, "ite_count", 0) + 1
+                    tn = f"ite_{self.ite_count}"
+                    lines.append(f"let {tn} : {ty} := (if {test} then\n{indent(a)}\nelse\n{indent(b)})")
+                    for k, n in enumerate(names):
+                        proj = ".2" * k + (".1" if k < len(names) - 1 else "")
+                        lines.append(f"let {lname(n)} : R := {tn}{proj}")
+                continue
+            raise Untranslatable(f"statement {type(s).__name__} at line {getattr(s, 'lineno', '?')}")
+        raise Untranslatable("function does not end in return")
+
+    def _branch(self, body, tup):
+        marker = ast.Return(value=ast.Name(id="__tuple__", ctx=ast.Load()))
+        saved = self.consts
+        self.consts = dict(saved)
+        self.consts["__tuple__"] = tup
+        try:
+            return self.stmts(list(body) + [marker])
+        finally:
+            self.consts = saved
+
+
+def translate_function(path, qualname, lean_name, vec_params=None, scalar_params=None, drop_params=("cls", "self"), consts=None,
+                       funcs=None, extra_args=(), ret_type=None, tree=None):
+    """`def <lean_name> (<extra_args> <params> : R) := …` for the whole body of a straight-line function.
+    vec_params: {python parameter: [lean scalar argument names]}"""
+    tree = tree or ast.parse(open(path).read())
+    fn = find_function(tree, qualname)
+    tr = TrFn(consts=consts, funcs=funcs)
+    args = list(extra_args)
+    for a in fn.args.args:
+        if a.arg in drop_params or a.arg in (consts or {}):
+            continue
+        if vec_params and a.arg in vec_params:
+            tr.vecs[a.arg] = list(vec_params[a.arg])
+            args += list(vec_params[a.arg])
+        elif scalar_params is None or a.arg in scalar_params:
+            tr.defined.add(a.arg)
+            args.append(lname(a.arg))
+    body = tr.stmts(fn.body)
+    rt = f" : {ret_type}" if ret_type else ""
+    return f"def {lean_name} ({' '.join(args)} : R){rt} :=\n{indent(body)}\n"
+
+
+def translate_expr(node, consts=None, funcs=None):
+    return TrFn(consts=consts, funcs=funcs).expr(node)
